@@ -368,9 +368,14 @@ def const(node, env=None):
     if isinstance(node, ast.Call) and isinstance(node.func, ast.Name) and not node.keywords and env and \
             node.func.id in env.get('__funcs__', ()):
         return env['__funcs__'][node.func.id](*_args(node.args, env))     # pure helper folded by fold_func
-    if isinstance(node, ast.Call) and isinstance(node.func, ast.Attribute) and not node.keywords and env and \
-            norm(node.func) in env.get('__calls__', ()):
-        return env['__calls__'][norm(node.func)](*_args(node.args, env))  # a method the caller of the fold models
+    if isinstance(node, ast.Call) and isinstance(node.func, ast.Attribute) and env and norm(node.func) in env.get('__calls__', ()):
+        kw = {}
+        for k in node.keywords:
+            if k.arg is None:
+                kw.update(const(k.value, env))
+            else:
+                kw[k.arg] = const(k.value, env)
+        return env['__calls__'][norm(node.func)](*_args(node.args, env), **kw)  # a method the caller of the fold models
     if isinstance(node, ast.Call) and isinstance(node.func, ast.Attribute) and not node.keywords and node.func.attr in _MUTATORS \
             and _owned(node.func.value, env) is not None:
         return getattr(_owned(node.func.value, env), node.func.attr)(*_args(node.args, env))    # a container the fold owns
